@@ -792,6 +792,98 @@ theorem run_prefix {g : Cfg} {n : Nat} (ok : POK g n) (hk : g.p.flags.toNat % 2 
       obtain ⟨k1, k2, k3, k4⟩ := keep hl
       exact ⟨c', "RET", by rw [runTask_succ, hpoll], s1, s2, dd, hsp, hd1, hd2, hkp, k1, k2, k3, k4, Or.inr ⟨rfl, hfin⟩⟩
 
+
+/-- **The executor** for a Responder request with KEEP_CONN whose handler is `[.read n, .ret st]`.
+`Z`: what the client will send next (not arrived yet); whatever record suffix `s₂` of the stream is
+left over, `serAll s₂ ++ Z` never fills the buffer and is not final before `Z`. -/
+theorem run_prefix' {g : Cfg} {n : Nat} (ok : POK g n) (hk : g.p.flags.toNat % 2 = 1) {Z : Bytes}
+    (hns : ∀ s1 s2, g.R = s1 ++ s2 → NoStuckW g.cap g.mc (serAll s2 ++ Z))
+    (hNF : ∀ s1 s2, g.R = s1 ++ s2 → ∀ F x, F ++ x ++ Z = serAll s2 ++ Z → (run .header F g.mc).st.isFinal = false)
+    (em : EndMode) (evs0 : List String) (c : Conn) (n0 fuel : Nat) (hst : PStage g n c)
+    (hem : c.env.tr.endMode = em) (hev0 : ∀ s ∈ evs0, s ∈ c.env.tr.events)
+    (hsegs : c.env.segs = []) (hf : ans c.env.tr + 1 ≤ fuel) :
+    ∃ c'' fin, runTask fuel c n0 none = (c'', fin) ∧ PEnd g Z em evs0 (ans c.env.tr) c'' fin := by
+  have h24 := cap24 g
+  refine run_gen'
+    (fun c0 => ((PStage g n c0) ∨
+      (∃ s1 s2 d, g.R = s1 ++ s2 ∧ d <+: g.content ∧ (d = [] → g.content = []) ∧
+        ZT g.cap g.mc (serAll s2 ++ Z) (gC g s1 s2).LU Z c0 ∧
+        PKeep g.more (g.hs0 + 1) [hsEvent g.p.request, rdEvent d] c0)) ∧
+      c0.env.tr.endMode = em ∧ (∀ s ∈ evs0, s ∈ c0.env.tr.events) ∧ ans c0.env.tr ≤ ans c.env.tr)
+    (fun c0 => ∃ s1 s2 d, g.R = s1 ++ s2 ∧ d <+: g.content ∧ (d = [] → g.content = []) ∧
+      ((∃ c', Halts (4 * c0.env.tr.input.length + 16) c0 c' .pending ∧ Link c0 c' ∧ c'.env.tr.woken = c0.env.tr.woken ∧
+        ZT g.cap g.mc (serAll s2 ++ Z) (gC g s1 s2).LU Z c' ∧ PKeep g.more (g.hs0 + 1) [hsEvent g.p.request, rdEvent d] c' ∧
+        ZParked g.cap g.mc (serAll s2 ++ Z) (gC g s1 s2).LU Z c') ∨
+      (∃ c', Halts (4 * c0.env.tr.input.length + 16) c0 c' .finished ∧ Link c0 c' ∧
+        PKeep g.more (g.hs0 + 1) [hsEvent g.p.request, rdEvent d] c' ∧ ZFin g.mc (serAll s2 ++ Z) (gC g s1 s2).LU Z c')))
+    (fun c'' fin => PEnd g Z em evs0 (ans c.env.tr) c'' fin)
+    (fun c0 c1 h a b c d e => by
+      refine ⟨?_, e.em.trans h.2.1, fun s hs => e.mem (h.2.2.1 s hs), by
+        have := h.2.2.2; unfold ans at this ⊢; rw [e.rd, e.wr]; exact this⟩
+      rcases h.1 with h1 | ⟨s1, s2, dd, hsp, hd1, hd2, h1, h2⟩
+      · exact Or.inl (h1.cong a b c d e)
+      · exact Or.inr ⟨s1, s2, dd, hsp, hd1, hd2, h1.cong a c e, h2.same b d e⟩)
+    (fun c0 h => ?_)
+    (fun c0 n1 f0 hS0 hsg hq _ => ?_)
+    (ans c.env.tr) c n0 fuel ⟨Or.inl hst, hem, hev0, Nat.le_refl _⟩ hsegs (Nat.le_refl _) hf
+  · -- one poll
+    have keep : ∀ {c' : Conn}, Link c0 c' → c'.env.tr.endMode = em ∧ (∀ s ∈ evs0, s ∈ c'.env.tr.events) ∧
+        ans c'.env.tr ≤ ans c.env.tr :=
+      fun hl => ⟨hl.ts.em.trans h.2.1, fun s hs => hl.ts.evm s (h.2.2.1 s hs),
+        Nat.le_trans hl.ts.ans_le h.2.2.2⟩
+    rcases h.1 with h1 | ⟨s1, s2, dd, hsp, hd1, hd2, h1, h2⟩
+    · rcases pstage_poll ok h1 with ⟨c', hh, hl, hS, hw, ha⟩ | ⟨k, c1, s1, s2, hk1, hs, hl, hsp, haf, dd, hd1, hd2, hd3⟩ |
+          ⟨c', s1, s2, hh, hl, hsp, hf, _⟩
+      · exact Or.inl ⟨c', hh.mono (by omega), hl, ⟨Or.inl hS, keep hl⟩, hw, ha⟩
+      · obtain ⟨raw, hph, hw, hraw⟩ := haf.ph
+        have hzt : ZT g.cap g.mc (serAll s2 ++ Z) (gC g s1 s2).LU Z c1 :=
+          Or.inr ⟨raw, hph, by rw [hw]; rfl, hraw, haf.log, haf.ben, haf.stop⟩
+        have hkp : PKeep g.more (g.hs0 + 1) [hsEvent g.p.request, rdEvent dd] c1 :=
+          ⟨haf.sc, haf.mtx, haf.ev.1, fun s hs => by
+            rcases List.mem_cons.1 hs with rfl | hs
+            · exact haf.ev.2
+            · rw [List.mem_singleton.1 hs]; exact hd3⟩
+        have hin1 := hl.ts.inp
+        rcases ZRes.of_steps hs hl (ztail_poll h24 (hns s1 s2 hsp) (hNF s1 s2 hsp) hzt hkp) with
+          ⟨c', hh, hl', hS, hw, ha⟩ | ⟨c', hh, r⟩ | ⟨c', hh, r⟩
+        · exact Or.inl ⟨c', hh.mono (by omega), hl', ⟨Or.inr ⟨s1, s2, dd, hsp, hd1, hd2, hS⟩, keep hl'⟩, hw, ha⟩
+        · exact Or.inr ⟨s1, s2, dd, hsp, hd1, hd2, Or.inl ⟨c', hh.mono (by omega), r⟩⟩
+        · exact Or.inr ⟨s1, s2, dd, hsp, hd1, hd2, Or.inr ⟨c', hh.mono (by omega), r⟩⟩
+      · have := hf.nokeep
+        have e : (gC g s1 s2).p = g.p := rfl
+        rw [e] at this
+        omega
+    · rcases ztail_poll h24 (hns s1 s2 hsp) (hNF s1 s2 hsp) h1 h2 with ⟨c', hh, hl', hS, hw, ha⟩ | ⟨c', hh, r⟩ |
+          ⟨c', hh, r⟩
+      · exact Or.inl ⟨c', hh.mono (by omega), hl', ⟨Or.inr ⟨s1, s2, dd, hsp, hd1, hd2, hS⟩, keep hl'⟩, hw, ha⟩
+      · exact Or.inr ⟨s1, s2, dd, hsp, hd1, hd2, Or.inl ⟨c', hh.mono (by omega), r⟩⟩
+      · exact Or.inr ⟨s1, s2, dd, hsp, hd1, hd2, Or.inr ⟨c', hh.mono (by omega), r⟩⟩
+  · -- from the last poll to the end of `runTask`
+    obtain ⟨hsame, hph, hsc, hstop, hmx, hsg', hwk⟩ := prePoll_same c0 n1 hsg
+    have hN : 4 * (prePoll c0 n1 none).env.tr.input.length + 16 ≤ 6 * (prePoll c0 n1 none).env.tr.input.length + 26 := by omega
+    have hans0 : ans (prePoll c0 n1 none).env.tr = ans c0.env.tr := by unfold ans; rw [hsame.rd, hsame.wr]
+    have keep : ∀ {c' : Conn}, Link (prePoll c0 n1 none) c' → c'.env.tr.endMode = em ∧
+        (∀ s ∈ evs0, s ∈ c'.env.tr.events) ∧ ans c'.env.tr ≤ ans c.env.tr ∧ c'.env.segs = [] :=
+      fun hl => ⟨(hl.ts.em.trans hsame.em).trans hS0.2.1, fun s hs => hl.ts.evm s (hsame.mem (hS0.2.2.1 s hs)),
+        by have := hl.ts.ans_le; have := hS0.2.2.2; omega, hl.segs.trans hsg'⟩
+    obtain ⟨s1, s2, dd, hsp, hd1, hd2, hq⟩ := hq
+    rcases hq with ⟨c', hh, hl, hw, hzt, hkp, hpk⟩ | ⟨c', hh, hl, hkp, hfin⟩
+    · have hpoll := hh.pollB hN
+      have hw' : c'.env.tr.woken = false := hw.trans hwk
+      obtain ⟨k1, k2, k3, k4⟩ := keep hl
+      rw [runTask_succ, hpoll]
+      simp only [hw', Bool.false_eq_true, if_false]
+      rw [release_nil _ k4]
+      simp only [hw', Bool.false_eq_true, if_false]
+      refine ⟨_, "STALL", rfl, s1, s2, dd, hsp, hd1, hd2, ?_⟩
+      obtain ⟨F, hF, hps, hph', hlg⟩ := hpk.pst
+      exact ⟨hkp.same rfl rfl ⟨rfl, rfl, rfl, rfl, rfl, rfl, [], by simp, Quiet.nil⟩, k1, k2, k3, k4,
+        Or.inl ⟨rfl, ⟨F, hF, hps.cong rfl rfl ⟨rfl, rfl, rfl, rfl, rfl, rfl, [], by simp, Quiet.nil⟩, hph', hlg⟩,
+          hpk.inp, hpk.em⟩⟩
+    · have hpoll := hh.pollB hN
+      obtain ⟨k1, k2, k3, k4⟩ := keep hl
+      exact ⟨c', "RET", by rw [runTask_succ, hpoll], s1, s2, dd, hsp, hd1, hd2, hkp, k1, k2, k3, k4, Or.inr ⟨rfl, hfin⟩⟩
+
 /-! ## In a chain -/
 
 theorem POK.front {g : Cfg} {n : Nat} (ok : POK g n) {us : List Rec} (hu : LeftOK (alignedBufsize g.b) us) :
